@@ -56,6 +56,7 @@ fn main() {
         "queries" => drive_queries(&mut cx),
         "serde" => drive_serde(&mut cx),
         "predicates" => vharness::pure::drive_predicates(&mut cx),
+        "orderings" => vharness::pure::drive_orderings(&mut cx),
         "measures" => vharness::pure::drive_measures(&mut cx, &hist),
         _ => { eprintln!("unknown family {fam}"); std::process::exit(2); }
     }
